@@ -6,3 +6,4 @@ open GoMail.Props.C20
 #print axioms non_reply_classification
 #print axioms esc_requires_extension
 #print axioms esc_is_prefix_of_text
+#print axioms no_narrow_counters
